@@ -7,7 +7,8 @@ set -u
 cd "$(dirname "$0")"
 mode="${1:-determinism}"; shift || true
 ids="${*:-C02 C03 C04 C05 C06 C13}"
-[ "$mode" = determinism ] || { echo "usage: selftest.sh determinism [IDs]"; exit 2; }
+if [ "$mode" = supervisor ]; then ./check build >/dev/null || exit 2; exec target/debug/wowsim selftest-supervisor; fi
+[ "$mode" = determinism ] || { echo "usage: selftest.sh determinism [IDs] | supervisor"; exit 2; }
 ./check build >/dev/null || exit 2
 rc=0
 for id in $ids; do
